@@ -10,8 +10,7 @@ Hypothesis Hnd : NoDup (map cs_tok cs).
 Hypothesis Hpriv : private cs = true.
 Hypothesis Hcalls : forall c cl, In c cs -> In cl (cs_prog c) -> (c_res cl < length rs)%nat /\ 1 <= c_len cl.
 Hypothesis Hnodef : forall c cl, In c cs -> In cl (cs_prog c) -> cs_co c = true ->
-  rs_kind (nth (c_res cl) rs rsdummy) <> KClosed
-  /\ (classify (rs_kind (nth (c_res cl) rs rsdummy)) (c_op cl) = CRead -> rs_timed (nth (c_res cl) rs rsdummy) = false).
+  classify (rs_kind (nth (c_res cl) rs rsdummy)) (c_op cl) = CRead -> rs_timed (nth (c_res cl) rs rsdummy) = false.
 Variable total : nat -> Z.
 Hypothesis Htotal : forall r, feedable (rs_kind (nth r rs rsdummy)) (rs_eof (nth r rs rsdummy)) = false -> total r = 0.
 
@@ -207,8 +206,7 @@ Proof.
   - eexists. split; [reflexivity|]. unfold weight, todo, pending, is_held; cbn. lia.
   - unfold submit. rewrite Ht. destruct (c_hold cl && negb (k_co k)).
     + eexists. split; [reflexivity|]. unfold weight, todo, pending, is_held; cbn. lia.
-    + destruct (k_co k && is_closed st cl); (eexists; split; [reflexivity|]);
-        unfold weight, todo, pending, is_held; cbn; lia.
+    + eexists; split; [reflexivity|]. unfold weight, todo, pending, is_held; cbn; lia.
 Qed.
 
 Lemma complete_mu : forall rest st j q, Inv None rest total st ->
